@@ -1,0 +1,26 @@
+//go:build verif
+
+package storage
+
+import "sync/atomic"
+
+// Instrumentation for the verification harness in /verif (build tag "verif").
+// Nothing in this file is compiled into normal builds.
+
+var verifYieldHook atomic.Pointer[func(point string)]
+
+// VerifSetYieldHook installs (or, with nil, removes) a function that is called at
+// the named synchronisation points of the package.
+func VerifSetYieldHook(f func(point string)) {
+	if f == nil {
+		verifYieldHook.Store(nil)
+		return
+	}
+	verifYieldHook.Store(&f)
+}
+
+func verifYield(point string) {
+	if f := verifYieldHook.Load(); f != nil {
+		(*f)(point)
+	}
+}
